@@ -19,6 +19,7 @@ const (
 	volumeDescriptorHeaderSize           = 7
 	volumeDescriptorBodySize             = sectorSize - volumeDescriptorHeaderSize
 	pathTableItemsLimit                  = 0x10000
+	maxDirectoryEntrySize                = 0xFF // length of entry encoded as byte
 
 	volumeTypeBoot          byte = 0
 	volumeTypePrimary       byte = 1
